@@ -26,7 +26,7 @@ ASSUMPTIONS = [
     "allowed differences: STRT/STOP/STEP values, STRT/STOP/STEP and index-curve units, empty value with a unit -> 0",
 ]
 REQUIRED = ["write_read_pairs", "items_compared", "cases_widest_item_has_empty_value", "cases_blank_mnemonic", "cases_duplicate_mnemonic",
-            "version_1.2", "version_2.0", "case_upper", "case_lower", "case_preserve", "other_text_compared", "second_generation_round_trips", "cases_header_line_over_256_chars", "other_text_with_empty_lines", "other_text_with_unicode_line_separators", "cases_vers_not_first_in_version_section", "cases_with_none_values"]
+            "version_1.2", "version_2.0", "case_upper", "case_lower", "case_preserve", "other_text_compared", "second_generation_round_trips", "cases_header_line_over_256_chars", "other_text_with_empty_lines", "other_text_with_unicode_line_separators", "cases_vers_not_first_in_version_section", "cases_with_none_values", "cases_with_nan_samples_or_without_null_item"]
 SOFT_DEADLINE = {"quick": 90, "thorough": 1500}
 LEVEL_TEXT = ("Exploration: every item of every section is compared after a write->read cycle; the generators rotate which item "
               "determines the section's column widths, since one line's correctness depends on all other items of its section.")
@@ -171,6 +171,18 @@ def grid(tier):
             yield {"spec": spec, "version": version, "none_values": True}
 
 
+    for rep in range(6 if tier == "quick" else 30):
+        for version in (1.2, 2.0):
+            for nan_sample, no_null in ((True, True), (True, False), (False, True)):
+                k += 1
+                rng = random.Random("C03nan%d" % k)
+                spec = make_spec(rng, MODES[rep % len(MODES)])
+                if any(it[0].strip().upper() == "NULL" for it in spec.get("Well", [])) and no_null:
+                    continue
+                spec["nan_sample"], spec["no_null"] = nan_sample, no_null
+                yield {"spec": spec, "version": version, "data_state": True}
+
+
 def n_random(tier):
     return 5000 if tier == "quick" else 80000
 
@@ -204,6 +216,13 @@ def build(lasio, spec):
     las.append_curve("DEPT", np.array([100.0, 100.5, 101.0]), unit="m", descr="index")
     for j, (m, u, v, d) in enumerate(spec["Curves"]):
         las.append_curve(m, np.array([1.0, 2.0, 3.0]) + j, unit=u, value=v, descr=d)
+    if spec.get("nan_sample"):
+        # what the data hold must not change the header: NaN samples (the normal state of a log), with and without a NULL line to spell them
+        if len(las.curves) < 2:
+            las.append_curve("NANC", np.array([1.0, 2.0, 3.0]), unit="u", descr="curve with a NaN sample")
+        las.curves[len(las.curves) - 1].data[1] = np.nan
+    if spec.get("no_null"):
+        del las.well["NULL"]
     return las
 
 
@@ -240,6 +259,8 @@ def run_case(case, ctx):
     las = build(lasio, spec)
     if case.get("none_values"):
         ctx.count("cases_with_none_values")
+    if case.get("data_state"):
+        ctx.count("cases_with_nan_samples_or_without_null_item")
     snap = {}
     for name in ("Version", "Well", "Curves", "Parameter"):
         snap[name] = [(it.original_mnemonic, it.unit, it.value, it.descr) for it in las.sections[name]]
